@@ -55,11 +55,12 @@ def check(rules, keywords, ic_directive, ic_parse, text, cache=None):
     import tatsu
     rules = [(n, tup(x)) for n, x in rules]
     start = rules[0][0]
-    ignorecase = bool(ic_directive or ic_parse)
+    # ic_parse: False = not given, True = ignorecase=True at parse time, 'off' = ignorecase=False at parse time (overrides the directive)
+    ignorecase = False if ic_parse == 'off' else bool(ic_directive or ic_parse)
     directives = [('ignorecase', 'True')] if ic_directive else []
     rd = [dict(name=n, exp=x, decorators=(('name',) if n.lower() == 'ident' else ())) for n, x in rules]
     rd0 = [dict(name=n, exp=x) for n, x in rules]
-    pkw = dict(ignorecase=True) if ic_parse else {}
+    pkw = dict(ignorecase=False) if ic_parse == 'off' else dict(ignorecase=True) if ic_parse else {}
     info = {}
     if cache is not None and 'model' in cache:
         model, model0, gcls = cache['model'], cache['model0'], cache['gcls']
@@ -187,6 +188,8 @@ def make_case(rnd):
         rnd.shuffle(keywords)
     ic_directive = rnd.random() < 0.3
     ic_parse = (not ic_directive) and rnd.random() < 0.25
+    if rnd.random() < 0.15:
+        ic_parse = 'off'       # an explicit ignorecase=False at parse time: the keywords count in the spelling they were declared in
     return rules, keywords, ic_directive, ic_parse
 
 
@@ -216,7 +219,7 @@ def run_shard(sh, n):
                     if d is not None:
                         sh.fail(d['bucket'], dict(rules=rules, keywords=keywords, icd=icd, icp=icp, input=text), d)
                     return
-                cls = [f'ident:{rules[-1][1][0]}', 'ignorecase:directive' if icd else 'ignorecase:parse' if icp else 'ignorecase:off', f'model:{info.get("model")}']
+                cls = [f'ident:{rules[-1][1][0]}', ('ignorecase:directive-overridden-off-at-parse' if icd else 'ignorecase:off-at-parse') if icp == 'off' else 'ignorecase:directive' if icd else 'ignorecase:parse' if icp else 'ignorecase:off', f'model:{info.get("model")}']
                 if info.get('kw_attempted'):
                     cls.append('keyword-attempted')
                 sh.case((gtext, icp, text), bool(info.get('kw_attempted')), cls, sample=dict(grammar=gtext, ignorecase_at_parse=icp, input=text))
